@@ -376,7 +376,32 @@ impl<'a> G<'a> {
     }
 }
 
+thread_local! {
+    /// names that look like SMT-LIB literals (`#b01`) and must therefore be quoted by the writer
+    static LITERAL_NAMES: std::cell::Cell<bool> = const { std::cell::Cell::new(false) };
+    /// names that are SMT-LIB reserved words / builtin functions (`true`, `let`, `and`)
+    static RESERVED_NAMES: std::cell::Cell<bool> = const { std::cell::Cell::new(false) };
+}
+
+pub fn set_name_stress(literal_like: bool, reserved: bool) {
+    LITERAL_NAMES.with(|l| l.set(literal_like));
+    RESERVED_NAMES.with(|l| l.set(reserved));
+}
+
 fn fancy_name(rng: &mut Rng, base: &str, quoted: bool) -> String {
+    if LITERAL_NAMES.with(|l| l.get()) && rng.chance(1, 3) {
+        // unique per signal through the suffix of `base` (digits), still literal-shaped
+        let k: String = base.chars().filter(|c| c.is_ascii_digit()).collect();
+        let k: u32 = k.parse().unwrap_or(0);
+        return match rng.below(3) {
+            0 => format!("#b{:b}1", k),
+            1 => format!("#x{:x}a", k),
+            _ => format!("{k}.5"),
+        };
+    }
+    if RESERVED_NAMES.with(|l| l.get()) && rng.chance(1, 4) {
+        return rng.pick(&["true", "false", "let", "and", "not", "Bool", "_", "as", "ite", "bvadd", "select"]).to_string();
+    }
     if !quoted || rng.chance(1, 2) {
         return base.to_string();
     }
